@@ -29,11 +29,14 @@ Definition batch_stream (b : batch) : list op :=
   let '(acc, st) := batch_stream_loop (b_counts b) (b_ops b) (mkBst O O 1%nat) [] in
   acc ++ repeat Noop (next_pow2 (b_num_groups b) - bs_gidx st).
 
-(* SPAN row, first batch, (RESPAN row, batch)*, END row; control rows act as NOOP *)
-Definition span_stream (ops : list op) : list op :=
+(* SPAN row, first batch, (RESPAN row, batch)*, END row; control rows act as NOOP.
+   Each entry is (operation recorded in the row, operation applied to the stack). *)
+Definition user (o : op) : op * op := (o, o).
+Definition span_stream (ops : list op) : list (op * op) :=
   match batch_ops ops with
-  | [] => [Noop; Noop]
-  | b0 :: bs => Noop :: batch_stream b0 ++ flat_map (fun b => Noop :: batch_stream b) bs ++ [Noop]
+  | [] => [(Span, Noop); (End, Noop)]
+  | b0 :: bs => (Span, Noop) :: map user (batch_stream b0) ++
+                flat_map (fun b => (Respan, Noop) :: map user (batch_stream b)) bs ++ [(End, Noop)]
   end.
 
 (* ---- context switches --------------------------------------------------------------------- *)
@@ -46,13 +49,13 @@ Definition start_call_ctx (s : state) (h : word) (is_sys : bool) : state :=
           (if is_sys then SYSCALL_FMP_MIN else FMP_MIN)
           (if is_sys then true else in_syscall s)
           (if is_sys then fn_hash s else h)
-          (mem s) (adv s).
+          (mem s) (adv s) (olog s).
 
 Definition restore_ctx (caller s : state) : state :=
   match saved s with
   | (vals, addrs) :: rest =>
       mkState (stk s ++ vals) addrs rest (clk s) (ctx caller) (fmp caller) false (fn_hash caller)
-              (mem s) (adv s)
+              (mem s) (adv s) (olog s)
   | [] => s (* unreachable: every return matches a call *)
   end.
 
@@ -61,29 +64,29 @@ Variable maxc : Z.
 Variable table : list (word * block).
 Variable kernel : list word.
 
-Definition stepc := step maxc.
+Definition cst := cstep maxc.
 
 Fixpoint exec_block (fuel : nat) (b : block) (s : state) {struct fuel} : result state :=
   match fuel with
   | O => Err OutOfFuel s
   | S f =>
     match b with
-    | BSpan ops => steps maxc (span_stream ops) s
+    | BSpan ops => csteps maxc (span_stream ops) s
     | BJoin x y =>
-        bind (stepc Noop s) (fun s1 =>
+        bind (cst Join Noop s) (fun s1 =>
         bind (exec_block f x s1) (fun s2 =>
-        bind (exec_block f y s2) (fun s3 => stepc Noop s3)))
+        bind (exec_block f y s2) (fun s3 => cst End Noop s3)))
     | BSplit t e =>
         let c := get s 0 in
-        bind (stepc Drop s) (fun s1 =>
-        if Z.eqb c 1 then bind (exec_block f t s1) (stepc Noop)
-        else if Z.eqb c 0 then bind (exec_block f e s1) (stepc Noop)
+        bind (cst Split Drop s) (fun s1 =>
+        if Z.eqb c 1 then bind (exec_block f t s1) (cst End Noop)
+        else if Z.eqb c 0 then bind (exec_block f e s1) (cst End Noop)
         else Err (NotBinary c) s1)
     | BLoop body =>
         let c := get s 0 in
-        bind (stepc Drop s) (fun s1 =>
+        bind (cst Loop Drop s) (fun s1 =>
         if Z.eqb c 1 then bind (exec_block f body s1) (exec_loop f body)
-        else if Z.eqb c 0 then stepc Noop s1
+        else if Z.eqb c 0 then cst End Noop s1
         else Err (NotBinary c) s1)
     | BCall h => exec_call f h false s
     | BSysCall h =>
@@ -97,31 +100,31 @@ with exec_loop (fuel : nat) (body : block) (s : state) {struct fuel} : result st
   | S f =>
       let c := get s 0 in
       if Z.eqb c 1 then
-        bind (stepc Drop s) (fun s1 => bind (exec_block f body s1) (exec_loop f body))
-      else if Z.eqb c 0 then stepc Drop s
+        bind (cst Repeat Drop s) (fun s1 => bind (exec_block f body s1) (exec_loop f body))
+      else if Z.eqb c 0 then cst End Drop s
       else Err (NotBinary c) s
   end
 with exec_call (fuel : nat) (h : word) (is_sys : bool) (s : state) {struct fuel} : result state :=
   match fuel with
   | O => Err OutOfFuel s
   | S f =>
-      bind (stepc Noop (start_call_ctx s h is_sys)) (fun s1 =>
+      bind (cst (if is_sys then SysCall else Call) Noop (start_call_ctx s h is_sys)) (fun s1 =>
       bind (if word_eqb h DYN_HASH then exec_dyn f s1
             else match table_get table h with
                  | Some body => exec_block f body s1
                  | None => Err CodeBlockNotFound s1
                  end) (fun s2 =>
       if Nat.ltb 16 (depth s2) then Err (DepthOnReturn (Z.of_nat (depth s2))) s2
-      else stepc Noop (restore_ctx s s2)))
+      else cst End Noop (restore_ctx s s2)))
   end
 with exec_dyn (fuel : nat) (s : state) {struct fuel} : result state :=
   match fuel with
   | O => Err OutOfFuel s
   | S f =>
       let h := [get s 3; get s 2; get s 1; get s 0] in
-      bind (stepc Noop s) (fun s1 =>
+      bind (cst Dyn Noop s) (fun s1 =>
       match table_get table h with
-      | Some body => bind (exec_block f body s1) (stepc Noop)
+      | Some body => bind (exec_block f body s1) (cst End Noop)
       | None => Err DynNotFound s1
       end)
   end.
